@@ -42,6 +42,9 @@ type gen struct {
 	dfl    map[string]string
 	dflV   map[string]*val
 	uni    map[string]bool
+	// inline makes show() print inline instead of through a function
+	inline       bool
+	showDeclared bool
 }
 
 func newGen(t *ty) *gen {
@@ -213,32 +216,84 @@ func (g *gen) dflt(t *ty) (string, *val) {
 	return n, v
 }
 
-// printAll prints every component of the value at source path sp (shown as dp in labels):
-// leaves directly, an optional as its discriminant followed by the components of `sp ?? default`.
-func (g *gen) printAll(sp, dp string, v *val, tag string) {
-	switch v.t.k {
+// printCode emits the statements that print every component of a value of type t at source
+// path sp: leaves directly, an optional as its discriminant followed by the components of
+// `sp ?? default`.
+func (g *gen) printCode(sp string, t *ty) {
+	switch t.k {
 	case kLeaf:
-		g.println(sp, v.leaf, tag+" "+dp)
+		g.stmt("io::Println(%s);", sp)
 	case kStruct:
-		for i, k := range v.kids {
-			g.printAll(fmt.Sprintf("%s.F%d", sp, i), fmt.Sprintf("%s.F%d", dp, i), k, tag)
+		for i, f := range t.fs {
+			g.printCode(fmt.Sprintf("%s.F%d", sp, i), f)
 		}
 	case kArr:
-		for i, k := range v.kids {
-			g.printAll(fmt.Sprintf("%s[%d]", sp, i), fmt.Sprintf("%s[%d]", dp, i), k, tag)
+		for i := 0; i < t.n; i++ {
+			g.printCode(fmt.Sprintf("%s[%d]", sp, i), t.el)
 		}
 	case kOpt:
 		g.stmt("tn = %s == none;", sp)
-		g.println("tn", strconv.FormatBool(!v.some), tag+" "+dp+"==none")
-		dn, dv := g.dflt(v.t.in)
+		g.stmt("io::Println(tn);")
+		dn, _ := g.dflt(t.in)
 		n := g.fresh("u")
-		g.stmt("let %s: %s = %s ?? %s;", n, g.src(v.t.in), sp, dn)
-		shown := dv
+		g.stmt("let %s: %s = %s ?? %s;", n, g.src(t.in), sp, dn)
+		g.printCode(n, t.in)
+	}
+}
+
+func dfltOf(t *ty) *val { c := 0; return build(t, &c, mDflt) }
+
+// printWant appends the lines printCode's statements must print for value v (shown as dp).
+func (g *gen) printWant(dp string, v *val, tag string) {
+	switch v.t.k {
+	case kLeaf:
+		g.expect(v.leaf, tag+" "+dp)
+	case kStruct:
+		for i, k := range v.kids {
+			g.printWant(fmt.Sprintf("%s.F%d", dp, i), k, tag)
+		}
+	case kArr:
+		for i, k := range v.kids {
+			g.printWant(fmt.Sprintf("%s[%d]", dp, i), k, tag)
+		}
+	case kOpt:
+		g.expect(strconv.FormatBool(!v.some), tag+" "+dp+"==none")
+		shown := dfltOf(v.t.in)
 		if v.some {
 			shown = v.pay
 		}
-		g.printAll(n, "("+dp+"??d)", shown, tag)
+		g.printWant("("+dp+"??d)", shown, tag)
 	}
+}
+
+// printAll prints every component of the value at source path sp inline.
+func (g *gen) printAll(sp, dp string, v *val, tag string) {
+	g.printCode(sp, v.t)
+	g.printWant(dp, v, tag)
+}
+
+// show prints every component of the value at sp through the case's `@@show(x: T)` function
+// (declared on first use); used by the lean case set to keep programs small. The value is
+// passed by value, which the property covers as well ("passes it to a function").
+func (g *gen) show(sp, dp string, v *val, tag string) {
+	if g.inline {
+		g.printAll(sp, dp, v, tag)
+		return
+	}
+	if !g.showDeclared {
+		g.showDeclared = true
+		save, sdfl, sdflV := g.b, g.dfl, g.dflV
+		g.b = strings.Builder{}
+		g.dfl, g.dflV = map[string]string{}, map[string]*val{}
+		if v.t.hasOpt() {
+			g.stmt("let tn: bool = false;")
+		}
+		g.printCode("x", v.t)
+		fmt.Fprintf(&g.extra, "fn @@show(x: %s) {\n%s}\n", g.src(v.t), g.b.String())
+		g.b, g.dfl, g.dflV = save, sdfl, sdflV
+	}
+	g.stmt("@@show(%s);", sp)
+	g.printWant(dp, v, tag)
 }
 
 func (g *gen) guards(tag string) {
@@ -391,13 +446,13 @@ func leanCases(t *ty) []*bcase {
 	{
 		g := newGen(t)
 		v := g.prologue()
-		g.printAll("v", "v", v, "init")
+		g.show("v", "v", v, "init")
 		g.guards("init")
 		s := mkSent(t)
 		for _, tg := range leafTgs {
 			g.store("v", v, s, tg)
 			tag := "after v" + tg.path + "=" + tg.what
-			g.printAll("v", "v", v, tag)
+			g.show("v", "v", v, tag)
 			g.guards(tag)
 		}
 		out = append(out, g.finish(id("storeall", "mixed"), "storeall", "mixed"))
@@ -407,15 +462,15 @@ func leanCases(t *ty) []*bcase {
 		g := newGen(t)
 		v := g.prologue()
 		g.stmt("let w: %s = v;", g.src(t))
-		g.printAll("v", "v", v, "copied")
-		g.printAll("w", "w", v, "copied")
+		g.show("v", "v", v, "copied")
+		g.show("w", "w", v, "copied")
 		w := v.clone()
 		s := mkSent(t)
 		for _, tg := range leafTgs {
 			g.store("w", w, s, tg)
 		}
-		g.printAll("v", "v", v, "copy mutated")
-		g.printAll("w", "w", w, "copy mutated")
+		g.show("v", "v", v, "copy mutated")
+		g.show("w", "w", w, "copy mutated")
 		g.guards("copy mutated")
 		out = append(out, g.finish(id("copy-mut", "mixed"), "copy-mut", "mixed"))
 	}
@@ -434,8 +489,8 @@ func leanCases(t *ty) []*bcase {
 		g.b = save
 		fmt.Fprintf(&g.extra, "fn @@mut(x: %s) -> %s {\n%s    return x;\n}\n", g.src(t), g.src(t), callee)
 		g.stmt("let r: %s = @@mut(v);", g.src(t))
-		g.printAll("v", "v", v, "callee mutated its parameter")
-		g.printAll("r", "r", r, "callee mutated its parameter")
+		g.show("v", "v", v, "callee mutated its parameter")
+		g.show("r", "r", r, "callee mutated its parameter")
 		g.guards("callee mutated its parameter")
 		out = append(out, g.finish(id("call-mut", "mixed"), "call-mut", "mixed"))
 	}
@@ -447,15 +502,15 @@ func leanCases(t *ty) []*bcase {
 		g.stmt("let v2: %s = %s;", g.src(t), g.expr(v2))
 		g.stmt("let arr: [2]%s = [v, v2];", g.src(t))
 		a0, a1 := v.clone(), v2.clone()
-		g.printAll("arr[0]", "arr[0]", a0, "in array")
-		g.printAll("arr[1]", "arr[1]", a1, "in array")
+		g.show("arr[0]", "arr[0]", a0, "in array")
+		g.show("arr[1]", "arr[1]", a1, "in array")
 		s := mkSent(t)
 		for _, tg := range leafTgs {
 			g.store("arr[1]", a1, s, tg)
 		}
-		g.printAll("arr[0]", "arr[0]", a0, "array element mutated")
-		g.printAll("arr[1]", "arr[1]", a1, "array element mutated")
-		g.printAll("v", "v", v, "array element mutated")
+		g.show("arr[0]", "arr[0]", a0, "array element mutated")
+		g.show("arr[1]", "arr[1]", a1, "array element mutated")
+		g.show("v", "v", v, "array element mutated")
 		g.guards("array element mutated")
 		out = append(out, g.finish(id("inarr-mut", "mixed"), "inarr-mut", "mixed"))
 	}
@@ -467,16 +522,16 @@ func leanCases(t *ty) []*bcase {
 		g.stmt("let h: @@W = { .P = 77, .V = v, .Q = 8888888888 };")
 		hv := v.clone()
 		g.println("h.P", "77", "in struct h.P")
-		g.printAll("h.V", "h.V", hv, "in struct")
+		g.show("h.V", "h.V", hv, "in struct")
 		g.println("h.Q", "8888888888", "in struct h.Q")
 		s := mkSent(t)
 		for _, tg := range leafTgs {
 			g.store("h.V", hv, s, tg)
 		}
 		g.println("h.P", "77", "struct field mutated h.P")
-		g.printAll("h.V", "h.V", hv, "struct field mutated")
+		g.show("h.V", "h.V", hv, "struct field mutated")
 		g.println("h.Q", "8888888888", "struct field mutated h.Q")
-		g.printAll("v", "v", v, "struct field mutated")
+		g.show("v", "v", v, "struct field mutated")
 		g.guards("struct field mutated")
 		out = append(out, g.finish(id("instruct-mut", "mixed"), "instruct-mut", "mixed"))
 	}
@@ -498,18 +553,18 @@ func leanCases(t *ty) []*bcase {
 			}
 			g.store("v", v, s, tg)
 			tag := "after v" + tg.path + "=whole"
-			g.printAll("v", "v", v, tag)
+			g.show("v", "v", v, tag)
 		}
 		g.stmt("arr[0] = v2;")
 		a0 = v2.clone()
-		g.printAll("arr[0]", "arr[0]", a0, "after arr[0]=v2")
-		g.printAll("arr[1]", "arr[1]", a1, "after arr[0]=v2")
+		g.show("arr[0]", "arr[0]", a0, "after arr[0]=v2")
+		g.show("arr[1]", "arr[1]", a1, "after arr[0]=v2")
 		g.stmt("h.V = v2;")
 		hv = v2.clone()
 		g.println("h.P", "77", "after h.V=v2 h.P")
-		g.printAll("h.V", "h.V", hv, "after h.V=v2")
+		g.show("h.V", "h.V", hv, "after h.V=v2")
 		g.println("h.Q", "8888888888", "after h.V=v2 h.Q")
-		g.printAll("v2", "v2", v2, "after h.V=v2")
+		g.show("v2", "v2", v2, "after h.V=v2")
 		g.guards("whole")
 		out = append(out, g.finish(id("whole", "whole"), "whole", "whole"))
 	}
@@ -528,13 +583,13 @@ func leanCases(t *ty) []*bcase {
 			g := newGen(t)
 			g.methods(leafs)
 			v := g.inferredPrologue()
-			g.printAll("v", "v", v, "inferred")
+			g.show("v", "v", v, "inferred")
 			g.methodCalls(leafs, v, "inferred")
 			s := mkSent(t)
 			for _, tg := range leafTgs {
 				g.store("v", v, s, tg)
 			}
-			g.printAll("v", "v", v, "inferred, all stored")
+			g.show("v", "v", v, "inferred, all stored")
 			g.guards("inferred")
 			out = append(out, g.finish(id("inferred", "mixed"), "inferred", "mixed"))
 		}
